@@ -4,12 +4,15 @@ from . import p_echsd
 RULE = ("random histories on echsd.c compiled against the virtual-time event loop: clock advances of 1..30 s (late wake-ups "
         "crossing several occurrences, several occurrences in one second), add / replace / cancel requests from 3 users for "
         "tasks with 1..6 occurrences starting before, at or after the current time (SECONDLY rules and RDATE lists), child "
-        "exits in random order, table dumps, occasional failing spawns; the reference says: one execution per task and tick in "
+        "exits in random order, table dumps, occasional failing spawns, iterations whose callbacks take 1..30 s of wall clock "
+        "(the event loop stand-in does what libev 4.33 does after ev_loop_fork: periodics_reschedule with a fresh time), one "
+        "history in twelve with steps of the wall clock (periodics_reschedule before the timers are looked at); the reference says: one execution per task and tick in "
         "which at least one occurrence since loading came due, none for the past, retirement after the last one.")
 
 
 def run(ctx):
-    p_echsd.run_checks(ctx, "C04", {"steps": 26, "spawnfail": True, "chk": False, "p_cancel": 0.15, "allday": True}, 500, 6000, RULE)
+    p_echsd.run_checks(ctx, "C04", {"steps": 26, "spawnfail": True, "chk": False, "p_cancel": 0.15, "allday": True, "busy": True,
+                                      "jump_share": 12}, 500, 6000, RULE)
 
 
 replay = p_echsd.replay
